@@ -654,6 +654,33 @@ class ModelMixin:
     def m_str_find(self, recv, args, kw, st, node):
         return [(st, vint(z3.IndexOf(recv.t, args[0].t, 0)))]
 
+    def m_str_partition(self, recv, args, kw, st, node, last=False):
+        """s.partition(sep) -> (head, sep, tail) at the first occurrence, (s, '', '') when there is none (rpartition: last occurrence,
+        ('', '', s)); an empty separator raises ValueError"""
+        if len(args) != 1 or args[0].k != "str" or recv.k != "str":
+            raise Unsupported(f"{self.where(node)}: str.partition on {recv!r} with {args!r}")
+        s_, sep = recv.t, args[0].t
+        out = []
+        bad = st.fork()
+        bad.pc.append(z3.Length(sep) == 0)
+        if feasible(bad.pc):
+            out.append((self.raise_exc(bad, "ValueError"), None))
+        st.assume(z3.Length(sep) > 0)
+        idx = z3.LastIndexOf(s_, sep) if last else z3.IndexOf(s_, sep, 0)
+        found = idx >= 0
+        head = z3.SubString(s_, 0, idx)
+        tail = z3.SubString(s_, idx + z3.Length(sep), z3.Length(s_) - idx - z3.Length(sep))
+        e = z3.StringVal("")
+        if last:
+            parts = [z3.If(found, head, e), z3.If(found, sep, e), z3.If(found, tail, s_)]
+        else:
+            parts = [z3.If(found, head, s_), z3.If(found, sep, e), z3.If(found, tail, e)]
+        out.append((st, V("tuple", xs=[V("str", t) for t in parts])))
+        return out
+
+    def m_str_rpartition(self, recv, args, kw, st, node):
+        return self.m_str_partition(recv, args, kw, st, node, last=True)
+
     def m_str_strip(self, recv, args, kw, st, node):
         return [(st, V("str", self.rules_strip(recv.t)))]
 
